@@ -1,4 +1,4 @@
-import Balm.Impl.Judge
+import Balm.Impl.Control
 /-!
 # `balmdriver` – line protocol between the Python harness and the Lean model
 
@@ -180,6 +180,24 @@ def handle (S : Session) (toks : List String) : Session × String :=
         | _ => none) with
     | some k, some es =>
       (S, String.intercalate " " ((List.range k).map fun i => toString (longestTo es.eraseDups k i)))
+    | _, _ => bad
+  | ["DRIVERS", asm, tgt, internal, bound, forb] =>
+    match parseSpace n asm, parseSpace n tgt, optNat bound with
+    | some a, some t, some b =>
+      let fl : List (Fin n) := if forb == "-" then [] else
+        (forb.splitOn ",").filterMap fun x => x.toNat?.bind fun k => if h : k < n then some ⟨k, h⟩ else none
+      let r := findDrivers N a t (internal == "1") b fl
+      (S, String.intercalate " " (sortStrs (r.map showSpace)))
+    | _, _, _ => bad
+  | ["FORCES", prev, drv, motif] =>
+    match parseSpace n prev, parseSpace n drv, parseSpace n motif with
+    | some p, some d, some m => (S, verdict (judgeForces N p d m))
+    | _, _, _ => bad
+  | "SUCCS" :: tgt :: rest => match parseSpace n tgt, parseDump n rest with
+    | some t, some d =>
+      let r := successionsOf d t
+      (S, if r == [[]] then "EMPTY" else
+        String.intercalate " ; " (sortStrs (r.map fun su => String.intercalate "," (su.map showSpace))))
     | _, _ => bad
   | "ADOPT" :: rest => match parseDump n rest with
     | some d => ({ S with diag := d.toDiag }, "OK")
